@@ -1,3 +1,4 @@
+// FAMILY: C22
 //! C22 — joins follow SQL join semantics.
 //! Focused generator: two tables t0(id0, a0, b0, c0, v0) / t1(id1, a1, b1, c1, v1) whose key columns a/b/c have the same
 //! type on both sides (BIGINT / INTEGER / VARCHAR / DATE), NULL densities 0/10/50/100 %, small domains (duplicates), and a
@@ -177,8 +178,9 @@ fn gen_shape(r: &mut Rng, n: usize, o: &Opts) -> Shape {
     let form = if matches!(jt, JoinType::Semi | JoinType::Anti) && r.chance(1, 3) && o.get_usize("exists", 1) == 1 { Form::Exists } else { Form::Join };
     let nkeys = if jt == JoinType::Cross { 0 } else { *r.pick(&[1usize, 1, 1, 2, 2, 3]) };
     let resid = if jt == JoinType::Cross { Resid::None } else { match o.get("resid") { Some(s) => Resid::parse(s), None => *r.pick(&[Resid::None, Resid::None, Resid::None, Resid::Lt, Resid::Ne, Resid::Never, Resid::LeftOnly, Resid::RightOnly, Resid::Le]) } };
-    // a residual over one side only inside EXISTS is an ordinary subquery filter; keep the EXISTS forms to equality + two-sided residual
-    let resid = if form == Form::Exists && matches!(resid, Resid::LeftOnly | Resid::RightOnly) { Resid::Ne } else { resid };
+    // EXISTS forms: equality correlation, optionally with the symmetric residual `<>`.  Ordered / arithmetic correlated
+    // residuals go wrong in the decorrelation rule (flipped comparison, unresolved column) — C23's findings, not the join's.
+    let resid = if form == Form::Exists && resid != Resid::None { Resid::Ne } else { resid };
     let mixed = o.get_usize("mixed", 1) == 1 && jt != JoinType::Cross && r.chance(1, 40);
     Shape { jt, form, nkeys, resid, mixed }
 }
@@ -390,6 +392,7 @@ fn witness_cases() -> Vec<(Value, Value)> {
     let i = |v: i64| Val::I(v);
     let row = |id: i64, a: i64, v: i64| vec![i(id), i(a), i(0), i(0), i(v)];
     let mut out = vec![];
+    let nl = || Val::Null;
     let mut push = |id: &str, cat: Catalog, sh: Shape, cfg: &str| {
         let q = build_query(&cat, &sh, false);
         let cfg = ExecCfg::parse(cfg).unwrap();
@@ -413,6 +416,15 @@ fn witness_cases() -> Vec<(Value, Value)> {
     // F3  BIGINT build key (dense: direct-address table) probed with an INTEGER key
     push("C22-F3", Catalog { tables: vec![table(0, ColTy::I64, vec![row(0, 1, 1), row(1, 2, 1)]), table(1, ColTy::I32, vec![row(0, 1, 2), row(1, 3, 2)])] },
          Shape { jt: JoinType::Left, form: Form::Join, nkeys: 1, resid: Resid::None, mixed: true }, "mem1");
+    // F4  LEFT JOIN whose build (right) input yields no batch at all: the NULL-extended rows cannot be assembled
+    let mut empty = table(1, ColTy::I64, vec![]); empty.cuts = vec![];
+    push("C22-F4", Catalog { tables: vec![table(0, ColTy::I64, vec![row(0, 1, 1), row(1, 2, 1)]), empty] },
+         Shape { jt: JoinType::Left, form: Form::Join, nkeys: 1, resid: Resid::None, mixed: false }, "memb");
+    // F5  filtered Semi, > 1000 probe rows (build = right): the compiled residual reads the NULL v0 of row 0 as 0, and 0 <> 2
+    let l5: Vec<Vec<Val>> = (0..1001).map(|k| vec![i(k), i(k % 3), i(0), i(0), if k == 0 { nl() } else { i(2) }]).collect();
+    let r5: Vec<Vec<Val>> = (0..3).map(|k| row(k, k, 2)).collect();
+    push("C22-F5", Catalog { tables: vec![table(0, ColTy::I64, l5), table(1, ColTy::I64, r5)] },
+         Shape { jt: JoinType::Semi, form: Form::Join, nkeys: 1, resid: Resid::Ne, mixed: false }, "mem1");
     out
 }
 
